@@ -305,3 +305,420 @@ Proof.
   - injection E as <- <-. destruct Ht as [id []].
   - injection E as <- <-. destruct Ht as [id []].
 Qed.
+
+(* ---------- failure is only reported for a datagram that has timed out ---------- *)
+Lemma dget_dset {A} k k' (v : A) d : dget k' (dset k v d) = if k' =? k then Some v else dget k' d.
+Proof.
+  induction d as [|[k0 v0] r IH]; cbn [dset dget].
+  - destruct (k' =? k); reflexivity.
+  - destruct (k =? k0) eqn:E0; cbn [dget].
+    + apply Z.eqb_eq in E0. subst k0. destruct (k' =? k); reflexivity.
+    + destruct (k' =? k0) eqn:E1; [|exact IH].
+      apply Z.eqb_eq in E1. subst k0. assert (k' =? k = false) as -> by lia. reflexivity.
+Qed.
+
+Lemma dget_ddel {A} k k' (d : list (Z * A)) : dget k' (ddel k d) = if k' =? k then None else dget k' d.
+Proof.
+  unfold ddel. induction d as [|[k0 v0] r IH]; cbn [filter dget fst].
+  - destruct (k' =? k); reflexivity.
+  - destruct (k0 =? k) eqn:E0; cbn [negb dget].
+    + rewrite IH. apply Z.eqb_eq in E0. subst k0. destruct (k' =? k) eqn:E1; [reflexivity|]. reflexivity.
+    + destruct (k' =? k0) eqn:E1; [|exact IH].
+      apply Z.eqb_eq in E1. subst k0. assert (k' =? k = false) as -> by lia. reflexivity.
+Qed.
+
+(* every failed fragment ack in cur was already a failed ack of the same context in c0 *)
+Definition old_false (c0 cur : conn) : Prop :=
+  forall fid fs, dget fid (c_pfrags cur) = Some fs -> In (Some false) (fs_acks fs) ->
+    exists fs0, dget fid (c_pfrags c0) = Some fs0 /\ fs_ucb fs0 = fs_ucb fs /\ In (Some false) (fs_acks fs0).
+
+(* since c0: either a datagram has been declared timed out, or no new failed ack exists *)
+Definition Q (c0 cur : conn) : Prop :=
+  c_timeouts c0 <= c_timeouts cur /\ (c_timeouts c0 < c_timeouts cur \/ old_false c0 cur).
+
+Definition false_ok (c0 : conn) (c' : conn) (o : list out) : Prop :=
+  forall id, In (OCallback id false) o ->
+    c_timeouts c0 < c_timeouts c' \/
+    exists fid fs0, dget fid (c_pfrags c0) = Some fs0 /\ fs_ucb fs0 = IUser id /\ In (Some false) (fs_acks fs0).
+
+Lemma set_nth_true_false l : forall n, In (Some false) (set_nth n (Some true) l) -> In (Some false) l.
+Proof.
+  induction l as [|a l IH]; intros [|n] H; cbn [set_nth] in *; try exact H.
+  - destruct H as [H|H]; [discriminate|right; exact H].
+  - destruct H as [H|H]; [left; exact H|right; eapply IH; exact H].
+Qed.
+
+Lemma all_some_not_all_true l : forallb is_some l = true -> forallb is_true l = false -> In (Some false) l.
+Proof.
+  induction l as [|a l IH]; cbn; intros H1 H2; [discriminate|].
+  apply andb_prop in H1 as [Ha Hl]. destruct a as [[|]|]; cbn in *; try discriminate.
+  - right. apply IH; assumption.
+  - left. reflexivity.
+Qed.
+
+Lemma Q_refl c : Q c c. Proof. split; [lia|right]. intros fid fs H1 H2. exists fs. auto. Qed.
+
+Lemma old_false_same c0 a b : c_pfrags b = c_pfrags a -> old_false c0 a -> old_false c0 b.
+Proof. unfold old_false. intros -> H. exact H. Qed.
+
+(* one inner callback, fired with flag ok from a state cur that satisfies Q c0 cur;
+   tmo = true records that the current datagram is being declared timed out *)
+Lemma fire_icb_false c0 cur k ok c' o :
+  Q c0 cur -> (ok = false -> c_timeouts c0 < c_timeouts cur) ->
+  fire_icb cur k ok = (c', o) -> Q c0 c' /\ false_ok c0 c' o.
+Proof.
+  intros [Hle Hq] Hok E. unfold fire_icb in E. destruct k.
+  - injection E as <- <-. split; [split; assumption|intros id []].
+  - injection E as <- <-. split; [split; assumption|]. intros id0 [H|[]]. injection H as -> ->. left. apply Hok. reflexivity.
+  - destruct (dget fid (c_pfrags cur)) as [fs|] eqn:Eg; [|injection E as <- <-; split; [split; assumption|intros id []]].
+    destruct (forallb is_some _) eqn:Ea; injection E as <- <-.
+    + (* complete: the user callback fires, the context is deleted *)
+      split.
+      * split; [exact Hle|]. destruct Hq as [Hq|Hq]; [left; exact Hq|right].
+        intros fid' fs' H1 H2. cbn in H1. rewrite dget_ddel in H1. destruct (fid' =? fid); [discriminate|]. exact (Hq _ _ H1 H2).
+      * intros id Hin. destruct (fs_ucb fs) eqn:Eu; try solve [destruct Hin]. destruct Hin as [H|[]]. injection H as -> Hf.
+        destruct ok.
+        -- (* stored flag is true: a false among the acks is an old one *)
+           destruct Hq as [Hq|Hq]; [left; exact Hq|right].
+           assert (Hin : In (Some false) (fs_acks fs)).
+           { apply (set_nth_true_false _ (Z.to_nat idx)). apply all_some_not_all_true; [exact Ea|exact Hf]. }
+           destruct (Hq _ _ Eg Hin) as (fs0 & G1 & G2 & G3). exists fid, fs0. rewrite G2, Eu. auto.
+        -- left. apply Hok. reflexivity.
+    + (* not complete: the flag is stored *)
+      split; [|intros id []]. split; [exact Hle|].
+      destruct ok; [|left; apply Hok; reflexivity].
+      destruct Hq as [Hq|Hq]; [left; exact Hq|right].
+      intros fid' fs' H1 H2. cbn in H1. rewrite dget_dset in H1. destruct (fid' =? fid) eqn:Ef.
+      * apply Z.eqb_eq in Ef. subst fid'. injection H1 as <-. cbn in H2. apply set_nth_true_false in H2.
+        destruct (Hq _ _ Eg H2) as (fs0 & G1 & G2 & G3). exists fs0. cbn. auto.
+      * exact (Hq _ _ H1 H2).
+  - injection E as <- <-. split; [split; assumption|]. intros id Hin. destruct ok; [destruct Hin|destruct Hin as [H|[]]; discriminate].
+  - injection E as <- <-. split; [split; assumption|]. intros id Hin. destruct ok; [destruct Hin|destruct Hin as [H|[]]; discriminate].
+  - injection E as <- <-. split; [split; assumption|]. intros id [H|[]]. discriminate.
+Qed.
+
+Lemma false_ok_mono c0 a b o : c_timeouts a <= c_timeouts b -> false_ok c0 a o -> false_ok c0 b o.
+Proof. intros H F id Hin. destruct (F id Hin) as [G|G]; [left; lia|right; exact G]. Qed.
+
+Lemma false_ok_app c0 c' a b : false_ok c0 c' a -> false_ok c0 c' b -> false_ok c0 c' (a ++ b).
+Proof. intros A B id Hin. apply in_app_or in Hin as [H|H]; [apply A|apply B]; exact H. Qed.
+
+Lemma fire_cb_false c0 cur k ok c' o :
+  Q c0 cur -> (ok = false -> c_timeouts c0 < c_timeouts cur) ->
+  fire_cb cur k ok = (c', o) -> Q c0 c' /\ false_ok c0 c' o.
+Proof.
+  intros HQ Hok E. unfold fire_cb in E. destruct k as [i|rid mseq ty p i]; [eapply fire_icb_false; eassumption|].
+  destruct (zmem rid (c_done cur)); [injection E as <- <-; split; [exact HQ|intros id []]|].
+  destruct (negb ok) eqn:En.
+  - injection E as <- <-. split; [|intros id []]. destruct HQ as [A B]. split; [exact A|].
+    destruct B as [B|B]; [left; exact B|right; exact B].
+  - eapply fire_icb_false; [| |exact E].
+    + destruct HQ as [A B]. split; [exact A|]. destruct B as [B|B]; [left; exact B|right; exact B].
+    + intros H. discriminate.
+Qed.
+
+Lemma fire_all_false ks : forall c0 cur ok c' o,
+  Q c0 cur -> (ok = false -> c_timeouts c0 < c_timeouts cur) ->
+  fire_all cur ks ok = (c', o) -> Q c0 c' /\ false_ok c0 c' o.
+Proof.
+  induction ks as [|k ks IH]; intros c0 cur ok c' o HQ Hok E; cbn [fire_all] in E.
+  - injection E as <- <-. split; [exact HQ|intros id []].
+  - destruct (fire_cb cur k ok) as [c1 o1] eqn:E1. destruct (fire_all c1 ks ok) as [c2 o2] eqn:E2.
+    injection E as <- <-. destruct (fire_cb_false _ _ _ _ _ _ HQ Hok E1) as [Q1 F1].
+    assert (Hok1 : ok = false -> c_timeouts c0 < c_timeouts c1).
+    { intros H. specialize (Hok H). apply fire_cb_ack in E1 as [_ _ T _ _]. lia. }
+    destruct (IH _ _ _ _ _ Q1 Hok1 E2) as [Q2 F2]. split; [exact Q2|].
+    apply false_ok_app; [|exact F2]. eapply false_ok_mono; [|exact F1]. apply fire_all_ack in E2 as [_ _ T _ _]. lia.
+Qed.
+
+Lemma Q_upd c0 a b : c_pfrags b = c_pfrags a -> c_timeouts a <= c_timeouts b -> Q c0 a -> Q c0 b.
+Proof.
+  intros P T [A B]. split; [lia|]. destruct B as [B|B]; [left; lia|].
+  right. eapply old_false_same; eassumption.
+Qed.
+
+Lemma resolve_false ok c0 cur s c' o :
+  Q c0 cur -> resolve ok cur s = (c', o) -> Q c0 c' /\ false_ok c0 c' o.
+Proof.
+  intros HQ E. unfold resolve in E.
+  set (c1 := if ok then _ else _) in E.
+  assert (Q1 : Q c0 c1) by (subst c1; destruct ok; (eapply Q_upd; [| |exact HQ]; cbn; [reflexivity|lia])).
+  assert (Hok : ok = false -> c_timeouts c0 < c_timeouts c1).
+  { intros ->. subst c1. cbn. destruct HQ as [A _]. lia. }
+  destruct (dget s (c_pcbs c1)) as [ks|].
+  - destruct (fire_all c1 ks ok) as [c2 o2] eqn:E2. destruct (fire_all_false _ _ _ _ _ _ Q1 Hok E2) as [Q2 F2].
+    injection E as <- <-. split.
+    + eapply Q_upd; [| |exact Q2]; cbn; [destruct (dget s (c_pretry c2)); reflexivity|destruct (dget s (c_pretry c2)); cbn; lia].
+    + eapply false_ok_mono; [|exact F2]. cbn. destruct (dget s (c_pretry c2)); cbn; lia.
+  - injection E as <- <-. split; [|intros id []].
+    eapply Q_upd; [| |exact Q1]; cbn; [destruct (dget s (c_pretry c1)); reflexivity|destruct (dget s (c_pretry c1)); cbn; lia].
+Qed.
+
+Lemma ack_loop_false h snap : forall c0 cur c' o,
+  Q c0 cur -> ack_loop cur h snap = (c', o) -> Q c0 c' /\ false_ok c0 c' o.
+Proof.
+  induction snap as [|[s t] r IH]; intros c0 cur c' o HQ E; cbn [ack_loop] in E.
+  - injection E as <- <-. split; [exact HQ|intros id []].
+  - dpair E c1 o1 E1. destruct (ack_loop c1 h r) as [c2 o2] eqn:E2. injection E as <- <-.
+    assert (H1 : Q c0 c1 /\ false_ok c0 c1 o1).
+    { destruct (hdr_acks _ _ s); [eapply resolve_false; eassumption|].
+      destruct (_ >? _); [eapply resolve_false; eassumption|]. injection E1 as <- <-. split; [exact HQ|intros id []]. }
+    destruct H1 as [Q1 F1]. destruct (IH _ _ _ _ Q1 E2) as [Q2 F2]. split; [exact Q2|].
+    apply false_ok_app; [|exact F2]. eapply false_ok_mono; [|exact F1]. destruct Q2 as [A _]. destruct Q1 as [B _].
+    (* timeouts only grow along the loop *)
+    clear - E2. revert E2. generalize c1 c2 o2. induction r as [|[s' t'] r' IHr]; intros a b ob Eb; cbn [ack_loop] in Eb.
+    + injection Eb as <- <-. lia.
+    + dpair Eb a1 oa1 Ea1. destruct (ack_loop a1 h r') as [a2 oa2] eqn:Ea2. injection Eb as <- <-.
+      specialize (IHr _ _ _ Ea2).
+      assert (c_timeouts a <= c_timeouts a1).
+      { destruct (hdr_acks _ _ s'); [apply resolve_packs in Ea1 as (_ & _ & _ & T); lia|].
+        destruct (_ >? _); [apply resolve_packs in Ea1 as (_ & _ & _ & T); lia|]. injection Ea1 as <- <-. lia. }
+      lia.
+Qed.
+
+Lemma ack_loop_mono h snap : forall c c' o, ack_loop c h snap = (c', o) -> c_timeouts c <= c_timeouts c'.
+Proof.
+  induction snap as [|[s t] r IH]; intros c c' o E; cbn [ack_loop] in E.
+  - injection E as <- <-. lia.
+  - dpair E c1 o1 E1. destruct (ack_loop c1 h r) as [c2 o2] eqn:E2. injection E as <- <-.
+    specialize (IH _ _ _ E2).
+    assert (c_timeouts c <= c_timeouts c1).
+    { destruct (hdr_acks _ _ s); [apply resolve_packs in E1 as (_ & _ & _ & T); lia|].
+      destruct (_ >? _); [apply resolve_packs in E1 as (_ & _ & _ & T); lia|]. injection E1 as <- <-. lia. }
+    lia.
+Qed.
+
+Lemma timeout_loop_mono strict now snap : forall c c' o, timeout_loop strict c now snap = (c', o) -> c_timeouts c <= c_timeouts c'.
+Proof.
+  induction snap as [|[s t] r IH]; intros c c' o E; cbn [timeout_loop] in E.
+  - injection E as <- <-. lia.
+  - dpair E c1 o1 E1. destruct (timeout_loop strict c1 now r) as [c2 o2] eqn:E2. injection E as <- <-.
+    specialize (IH _ _ _ E2).
+    assert (c_timeouts c <= c_timeouts c1).
+    { match type of E1 with (if ?b then _ else _) = _ => destruct b end;
+        [apply resolve_packs in E1 as (_ & _ & _ & T); lia|injection E1 as <- <-; lia]. }
+    lia.
+Qed.
+
+Lemma timeout_loop_false strict now snap : forall c0 cur c' o,
+  Q c0 cur -> timeout_loop strict cur now snap = (c', o) -> Q c0 c' /\ false_ok c0 c' o.
+Proof.
+  induction snap as [|[s t] r IH]; intros c0 cur c' o HQ E; cbn [timeout_loop] in E.
+  - injection E as <- <-. split; [exact HQ|intros id []].
+  - dpair E c1 o1 E1. destruct (timeout_loop strict c1 now r) as [c2 o2] eqn:E2. injection E as <- <-.
+    assert (H1 : Q c0 c1 /\ false_ok c0 c1 o1).
+    { match type of E1 with (if ?b then _ else _) = _ => destruct b end; [eapply resolve_false; eassumption|].
+      injection E1 as <- <-. split; [exact HQ|intros id []]. }
+    destruct H1 as [Q1 F1]. destruct (IH _ _ _ _ Q1 E2) as [Q2 F2]. split; [exact Q2|].
+    apply false_ok_app; [|exact F2]. eapply false_ok_mono; [|exact F1].
+    clear - E2. revert E2. generalize c1 c2 o2. induction r as [|[s' t'] r' IHr]; intros a b ob Eb; cbn [timeout_loop] in Eb.
+    + injection Eb as <- <-. lia.
+    + dpair Eb a1 oa1 Ea1. destruct (timeout_loop strict a1 now r') as [a2 oa2] eqn:Ea2. injection Eb as <- <-.
+      specialize (IHr _ _ _ Ea2).
+      assert (c_timeouts a <= c_timeouts a1).
+      { match type of Ea1 with (if ?b then _ else _) = _ => destruct b end;
+          [apply resolve_packs in Ea1 as (_ & _ & _ & T); lia|injection Ea1 as <- <-; lia]. }
+      lia.
+Qed.
+
+Lemma no_cb_false_ok c0 c' o : (forall id b, ~ In (OCallback id b) o) -> false_ok c0 c' o.
+Proof. intros H id Hin. exfalso. exact (H _ _ Hin). Qed.
+
+Lemma recv_false c now d orcs c' o : recv c now d orcs = (c', o) -> false_ok c c' o /\ c_timeouts c <= c_timeouts c'.
+Proof.
+  unfold recv. intros E.
+  assert (Hr : forall b id v, ~ In (OCallback id v) [ORet b]) by (intros b id v [H|[]]; discriminate).
+  destruct (keyless_refuses c (d_hdr d)); [injection E as <- <-; split; [apply no_cb_false_ok, Hr|cbn; lia]|].
+  destruct (open_dgram (c_key c) d) as [ms|]; [|injection E as <- <-; split; [apply no_cb_false_ok, Hr|cbn; lia]].
+  destruct (bf_insert (c_bf_pkt c) _) as [bf|]; [|injection E as <- <-; split; [apply no_cb_false_ok, Hr|cbn; lia]].
+  match type of E with context [handle_ack_bits ?c0 _] => set (cc := c0) in E end.
+  assert (Qcc : Q c cc) by (eapply Q_upd; [| |apply Q_refl]; subst cc; cbn; [reflexivity|lia]).
+  destruct (handle_ack_bits cc (d_hdr d)) as [c1 o1] eqn:E1.
+  destruct (recv_msgs c1 now ms orcs) as [c2 o2] eqn:E2. injection E as <- <-.
+  unfold handle_ack_bits in E1. destruct (ack_loop_false _ _ _ _ _ _ Qcc E1) as [[T1 _] F1].
+  pose proof (recv_msgs_ack _ _ _ _ _ _ E2) as [_ _ T2 _ _].
+  split; [|lia].
+  apply false_ok_app; [eapply false_ok_mono; [|exact F1]; lia|].
+  apply no_cb_false_ok. intros id v Hin. apply in_app_or in Hin as [Hin|Hin].
+  - exact (recv_msgs_no_cb _ _ _ _ _ _ _ _ E2 Hin).
+  - destruct (raised o2); [destruct Hin|exact (Hr _ _ _ Hin)].
+Qed.
+
+Lemma build_packet_Q e c now c' r : build_packet e c now = (c', r) -> c_pfrags c' = c_pfrags c /\ c_timeouts c' = c_timeouts c.
+Proof.
+  intros E. split; [eapply build_packet_pfrags; exact E|]. apply build_packet_packs in E as (_ & T & _). exact T.
+Qed.
+
+(* every event: a reported failure means a datagram was declared timed out in this very step,
+   or a fragment of that message had already been declared timed out *)
+Theorem step_false e c x c' o : step e c x = (c', o) -> false_ok c c' o.
+Proof.
+  intros E. destruct x; cbn [step] in E.
+  - apply no_cb_false_ok. intros id v Hin. unfold send in E. destruct (negb _); [injection E as <- <-; destruct Hin|].
+    destruct (_ >? _); [destruct (_ >? _)|]; injection E as <- <-; try solve [destruct Hin]. destruct Hin as [H|[]]; discriminate.
+  - unfold client_tick in E.
+    destruct (client_update c now) as [c0 o0] eqn:E0.
+    assert (H0 : c_pfrags c0 = c_pfrags c /\ c_timeouts c0 = c_timeouts c /\ forall id v, ~ In (OCallback id v) o0).
+    { unfold client_update in E0.
+      destruct (_ && (now >? _)); destruct (_ && (_ >? c_temp_timeout _)); injection E0 as <- <-;
+        (split; [reflexivity|split; [reflexivity|]]); intros id v Hin; try solve [destruct Hin];
+        destruct (c_conn_cb _); try solve [destruct Hin]; destruct Hin as [H|[]]; discriminate. }
+    destruct H0 as (P0 & T0 & N0).
+    assert (Q0 : Q c c0) by (eapply Q_upd; [| |apply Q_refl]; [exact P0|lia]).
+    destruct (status_eqb (c_status c0) DROPPED); [injection E as <- <-; apply no_cb_false_ok; exact N0|].
+    match type of E with context [match ?y with (_, _) => _ end] => destruct y as [c1 o1] eqn:E1 end.
+    assert (H1 : Q c c1 /\ false_ok c c1 o1).
+    { destruct r as [|er|d orcs].
+      - injection E1 as <- <-. split; [exact Q0|intros id []].
+      - injection E1 as <- <-. split; [exact Q0|intros id [H|[]]; discriminate].
+      - destruct (recv c0 now d orcs) as [c'' o''] eqn:Er. injection E1 as <- <-.
+        (* recv from c0: transport its result to the pre-state c (same pfrags, same counter) *)
+        destruct (recv_false _ _ _ _ _ _ Er) as [F T].
+        assert (Fc : false_ok c c'' o'').
+        { intros id Hin. destruct (F id Hin) as [G|(fid & fs0 & G1 & G2 & G3)]; [left; lia|right].
+          exists fid, fs0. rewrite <- P0. auto. }
+        split.
+        + (* Q c c'' : follows from the loop lemmas through recv; rebuild it *)
+          unfold recv in Er.
+          destruct (keyless_refuses c0 (d_hdr d)); [injection Er as <- <-; eapply Q_upd; [| |exact Q0]; cbn; [reflexivity|lia]|].
+          destruct (open_dgram (c_key c0) d) as [ms|]; [|injection Er as <- <-; eapply Q_upd; [| |exact Q0]; cbn; [reflexivity|lia]].
+          destruct (bf_insert (c_bf_pkt c0) _) as [bf|]; [|injection Er as <- <-; eapply Q_upd; [| |exact Q0]; cbn; [reflexivity|lia]].
+          match type of Er with context [handle_ack_bits ?cx _] => set (cc := cx) in Er end.
+          assert (Qcc : Q c cc) by (eapply Q_upd; [| |exact Q0]; subst cc; cbn; [reflexivity|lia]).
+          destruct (handle_ack_bits cc (d_hdr d)) as [ca oa] eqn:Ea.
+          destruct (recv_msgs ca now ms orcs) as [cb ob] eqn:Eb. injection Er as <- <-.
+          unfold handle_ack_bits in Ea. destruct (ack_loop_false _ _ _ _ _ _ Qcc Ea) as [Qa _].
+          eapply Q_upd; [| |exact Qa]; [eapply recv_msgs_pfrags; exact Eb|].
+          apply recv_msgs_ack in Eb as [_ _ Tb _ _]. lia.
+        + intros id Hin. apply filter_In in Hin as [Hin _]. exact (Fc id Hin). }
+    destruct H1 as [Q1 F1].
+    destruct (raised o1); [injection E as <- <-; apply false_ok_app; [apply no_cb_false_ok; exact N0|exact F1]|].
+    destruct (_ >? _); [|injection E as <- <-; apply false_ok_app; [apply no_cb_false_ok; exact N0|exact F1]].
+    destruct (build_packet e c1 now) as [c2 pk] eqn:E2.
+    destruct (check_timeout false c2 now) as [c3 o3] eqn:E3. injection E as <- <-.
+    destruct (build_packet_Q _ _ _ _ _ E2) as [P2 T2].
+    assert (Q2 : Q c c2) by (eapply Q_upd; [| |exact Q1]; [exact P2|lia]).
+    unfold check_timeout in E3. destruct (timeout_loop_false _ _ _ _ _ _ _ Q2 E3) as [[T3 _] F3].
+    apply false_ok_app; [apply no_cb_false_ok; exact N0|].
+    apply false_ok_app; [eapply false_ok_mono; [|exact F1]; pose proof (timeout_loop_mono _ _ _ _ _ _ E3); lia|].
+    apply false_ok_app; [apply no_cb_false_ok; intros id v Hin; destruct pk; [exact (emit_no_cb _ _ _ _ Hin)|destruct Hin]|exact F3].
+  - unfold server_tick in E. destruct (_ >? _); [|injection E as <- <-; intros id []].
+    destruct (build_packet e c now) as [c1 pk] eqn:E1.
+    destruct (check_timeout true c1 now) as [c2 o2] eqn:E2. injection E as <- <-.
+    destruct (build_packet_Q _ _ _ _ _ E1) as [P1 T1].
+    assert (Q1 : Q c c1) by (eapply Q_upd; [| |apply Q_refl]; [exact P1|lia]).
+    unfold check_timeout in E2. destruct (timeout_loop_false _ _ _ _ _ _ _ Q1 E2) as [_ F2].
+    apply false_ok_app; [exact F2|].
+    apply no_cb_false_ok. intros id v Hin. destruct pk; [exact (emit_no_cb _ _ _ _ Hin)|destruct Hin].
+  - apply recv_false in E as [F _]. exact F.
+  - injection E as <- <-. intros id [].
+  - injection E as <- <-. intros id [].
+  - injection E as <- <-. intros id [].
+  - injection E as <- <-. intros id [].
+  - injection E as <- <-. intros id [].
+Qed.
+
+(* ... and a datagram is declared timed out only when it is at least message-time-out old *)
+Lemma timeout_loop_due strict now snap : forall c c' o,
+  timeout_loop strict c now snap = (c', o) -> c_timeouts c < c_timeouts c' ->
+  exists s t, In (s, t) snap /\ c_out_timeout c <= now - t.
+Proof.
+  induction snap as [|[s t] r IH]; intros c c' o E Hlt; cbn [timeout_loop] in E.
+  - injection E as <- <-. lia.
+  - dpair E c1 o1 E1. destruct (timeout_loop strict c1 now r) as [c2 o2] eqn:E2. injection E as <- <-.
+    match type of E1 with (if ?b then _ else _) = _ => destruct b eqn:Ed end.
+    + exists s, t. split; [left; reflexivity|]. destruct strict; lia.
+    + injection E1 as <- <-. destruct (IH _ _ _ E2 Hlt) as (s' & t' & Hi & Hd). exists s', t'. split; [right; exact Hi|exact Hd].
+Qed.
+
+Lemma ack_loop_due h snap : forall c c' o,
+  ack_loop c h snap = (c', o) -> c_timeouts c < c_timeouts c' ->
+  exists s t, In (s, t) snap /\ c_out_timeout c < c_last_recv c - t.
+Proof.
+  induction snap as [|[s t] r IH]; intros c c' o E Hlt; cbn [ack_loop] in E.
+  - injection E as <- <-. lia.
+  - dpair E c1 o1 E1. destruct (ack_loop c1 h r) as [c2 o2] eqn:E2. injection E as <- <-.
+    destruct (hdr_acks _ _ s).
+    + pose proof (resolve_packs _ _ _ _ _ E1) as (_ & _ & _ & T1). apply resolve_frame in E1 as [[[_ _ _ _ _ _ O _] _ _ R] _].
+      destruct (IH _ _ _ E2 ltac:(lia)) as (s' & t' & Hi & Hd). exists s', t'. split; [right; exact Hi|]. lia.
+    + destruct (c_last_recv c - t >? c_out_timeout c) eqn:Ed.
+      * exists s, t. split; [left; reflexivity|lia].
+      * injection E1 as <- <-. destruct (IH _ _ _ E2 Hlt) as (s' & t' & Hi & Hd). exists s', t'. split; [right; exact Hi|exact Hd].
+Qed.
+
+Lemma ack_loop_incl h snap : forall c c' o, ack_loop c h snap = (c', o) -> forall x, In x (c_packs c') -> In x (c_packs c).
+Proof.
+  induction snap as [|[s t] r IH]; intros c c' o E x Hx; cbn [ack_loop] in E.
+  - injection E as <- <-. exact Hx.
+  - dpair E c1 o1 E1. destruct (ack_loop c1 h r) as [c2 o2] eqn:E2. injection E as <- <-.
+    apply (IH _ _ _ E2) in Hx.
+    destruct (hdr_acks _ _ s); [apply resolve_packs in E1 as (P & _); rewrite P in Hx; apply ddel_In in Hx as [Hx _]; exact Hx|].
+    destruct (_ >? _); [apply resolve_packs in E1 as (P & _); rewrite P in Hx; apply ddel_In in Hx as [Hx _]; exact Hx|].
+    injection E1 as <- <-. exact Hx.
+Qed.
+
+Lemma recv_due c now d orcs c' o : recv c now d orcs = (c', o) ->
+  (forall x, In x (c_packs c') -> In x (c_packs c)) /\ c_out_timeout c' = c_out_timeout c /\
+  (c_timeouts c < c_timeouts c' -> exists s t, In (s, t) (c_packs c) /\ c_out_timeout c < now - t).
+Proof.
+  unfold recv. intros E.
+  destruct (keyless_refuses c (d_hdr d)); [injection E as <- <-; cbn; repeat split; auto; lia|].
+  destruct (open_dgram (c_key c) d) as [ms|]; [|injection E as <- <-; cbn; repeat split; auto; lia].
+  destruct (bf_insert (c_bf_pkt c) _) as [bf|]; [|injection E as <- <-; cbn; repeat split; auto; lia].
+  match type of E with context [handle_ack_bits ?c0 _] => set (cc := c0) in E end.
+  destruct (handle_ack_bits cc (d_hdr d)) as [c1 o1] eqn:E1.
+  destruct (recv_msgs c1 now ms orcs) as [c2 o2] eqn:E2. injection E as <- <-.
+  pose proof (recv_msgs_ack _ _ _ _ _ _ E2) as [P2 _ T2 _ _].
+  pose proof (recv_msgs_frame _ _ _ _ _ _ E2) as [[_ _ _ _ _ _ O2 _] _].
+  pose proof E1 as E1'. apply handle_ack_bits_frame in E1' as [[[_ _ _ _ _ _ O1 _]] _].
+  unfold handle_ack_bits in E1. split; [|split].
+  - intros x Hx. rewrite P2 in Hx. exact (ack_loop_incl _ _ _ _ _ E1 x Hx).
+  - rewrite O2, O1. reflexivity.
+  - intros Hlt. rewrite T2 in Hlt. exact (ack_loop_due _ _ _ _ _ E1 Hlt).
+Qed.
+
+Theorem step_timeout_due e c x c' o : step e c x = (c', o) -> c_timeouts c < c_timeouts c' ->
+  exists s t, (In (s, t) (c_packs c) \/ t = ev_now x) /\ c_out_timeout c <= ev_now x - t.
+Proof.
+  intros E Hlt. destruct x; cbn [step] in E; cbn [ev_now].
+  - apply send_ack in E as [_ _ T _ _]. lia.
+  - unfold client_tick in E.
+    destruct (client_update c now) as [c0 o0] eqn:E0.
+    pose proof (client_update_ack _ _ _ _ E0) as [P0 _ T0 _ _]. apply client_update_frame in E0 as ([_ _ _ _ _ _ O0 _] & _ & _).
+    destruct (status_eqb (c_status c0) DROPPED); [injection E as <- <-; lia|].
+    match type of E with context [match ?y with (_, _) => _ end] => destruct y as [c1 o1] eqn:E1 end.
+    assert (H1 : (forall x, In x (c_packs c1) -> In x (c_packs c)) /\ c_out_timeout c1 = c_out_timeout c /\
+                 (c_timeouts c < c_timeouts c1 -> exists s t, In (s, t) (c_packs c) /\ c_out_timeout c < now - t)).
+    { destruct r as [|er|d orcs]; try (injection E1 as <- <-; rewrite P0, O0, T0; repeat split; auto; lia).
+      destruct (recv c0 now d orcs) as [c'' o''] eqn:Er. injection E1 as <- <-.
+      destruct (recv_due _ _ _ _ _ _ Er) as (I & O & D). rewrite P0, O0, T0 in *. auto. }
+    destruct H1 as (I1 & O1 & D1).
+    assert (Hrecv : c_timeouts c < c_timeouts c1 -> exists s t, (In (s, t) (c_packs c) \/ t = now) /\ c_out_timeout c <= now - t).
+    { intros H. destruct (D1 H) as (s & t & A & B). exists s, t. split; [left; exact A|lia]. }
+    destruct (raised o1); [injection E as <- <-; auto|].
+    destruct (_ >? _); [|injection E as <- <-; auto].
+    destruct (build_packet e c1 now) as [c2 pk] eqn:E2.
+    destruct (check_timeout false c2 now) as [c3 o3] eqn:E3. injection E as <- <-.
+    pose proof (build_packet_packs _ _ _ _ _ E2) as (_ & T2 & O2 & P2).
+    destruct (Z_lt_le_dec (c_timeouts c) (c_timeouts c1)) as [Hc|Hc]; [auto|].
+    unfold check_timeout in E3. destruct (timeout_loop_due _ _ _ _ _ _ E3 ltac:(lia)) as (s & t & Hi & Hd).
+    exists s, t. split; [|lia].
+    destruct pk as [pk|]; destruct P2 as [P2 _]; rewrite P2 in Hi.
+    + apply dset_In in Hi as [Hi|Hi]; [right; congruence|left; apply I1; exact Hi].
+    + left. apply I1. exact Hi.
+  - unfold server_tick in E. destruct (_ >? _); [|injection E as <- <-; lia].
+    destruct (build_packet e c now) as [c1 pk] eqn:E1.
+    destruct (check_timeout true c1 now) as [c2 o2] eqn:E2. injection E as <- <-.
+    pose proof (build_packet_packs _ _ _ _ _ E1) as (_ & T1 & O1 & P1).
+    unfold check_timeout in E2. destruct (timeout_loop_due _ _ _ _ _ _ E2 ltac:(lia)) as (s & t & Hi & Hd).
+    exists s, t. split; [|lia].
+    destruct pk as [pk|]; destruct P1 as [P1 _]; rewrite P1 in Hi.
+    + apply dset_In in Hi as [Hi|Hi]; [right; congruence|left; exact Hi].
+    + left. exact Hi.
+  - destruct (recv_due _ _ _ _ _ _ E) as (_ & _ & D). destruct (D Hlt) as (s & t & A & B). exists s, t. split; [left; exact A|lia].
+  - injection E as <- <-. unfold disconnect in Hlt. destruct (_ || _); cbn in Hlt; lia.
+  - injection E as <- <-. destruct which as [|[[q|q|]|[q|q|]|]|q]; cbn in Hlt; lia.
+  - injection E as <- <-. cbn in Hlt. lia.
+  - injection E as <- <-. cbn in Hlt. lia.
+  - injection E as <- <-. cbn in Hlt. lia.
+Qed.
